@@ -68,6 +68,11 @@ def meme_text(motifs, layout=None):
 		w = M.shape[1]
 		lines.append("MOTIF " + name)
 		lines += [""] * lo.get("blank_after_motif_line", 0)
+		if lo.get("log_odds_section"):
+			lines.append("log-odds matrix: alength= 4 w= %d E= 0" % w)
+			for j in range(w):
+				lines.append(" ".join("%d" % int(round(100 * (M[i, j] - 0.25))) for i in range(4)))
+			lines.append("")
 		head = "letter-probability matrix: alength= 4 w= %d" % w
 		if lo["nsites"]:
 			head += " nsites= 20 E= 0"
